@@ -74,6 +74,7 @@ theorem both_pullRsp (h : Both vx vy live q) :
       refine ⟨trivial, ?_, hy.own_same _ rfl rfl rfl rfl rfl rfl rfl rfl rfl⟩
       exact {
         sf := hx.sf
+        co := hx.co
         ph := hx.ph
         idn := hx.idn
         lk := hx.lk
@@ -168,6 +169,7 @@ theorem both_writeDone (h : Both vx vy live q) (hph : Phase (key q)) :
             Phase.done S r' g1 rfl g3 g4 rfl rfl hdn (by omega), trivial⟩
           exact {
             sf := hx.sf
+            co := hx.co
             ph := Or.inl (Phase.done S r' g1 rfl g3 g4 rfl rfl hdn (by omega))
             idn := hx.idn
             lk := by simpa [activeId, hr] using hx.lk
@@ -209,6 +211,7 @@ theorem both_writeDone (h : Both vx vy live q) (hph : Phase (key q)) :
           refine ⟨trivial, ⟨?_, hy.own_same _ rfl rfl rfl rfl rfl rfl rfl rfl rfl⟩, hph', trivial⟩
           exact {
             sf := hx.sf
+            co := hx.co
             ph := Or.inl hph'
             idn := hx.idn
             lk := hx.lk
